@@ -154,7 +154,7 @@ var propExplanationMore = map[string]string{
 	"C05": " Added: recovered chunks are queued by an ordinary call in Start (not a goroutine), so Accept cannot overtake them (C01.R8); a timestamp rendered into the chunk id must be fixed-width and in UTC (R6).",
 	"C06": " Added: the permanent key slice is followed from GetOrCreate through every function that receives it; no element of it is ever rewritten, so identity is built from the values the record was routed by (R6); the directory hash is taken of the id itself, never of the sanitised name (R5).",
 	"C07": " R3 is a content taint: deep copies are identity, helpers are followed, a byte-offset cut after the cleaner re-taints.",
-	"C09": " Added: cross-record state of the parser (C15.R6) and universe-wide transient-string stores (C12.R6).",
+	"C09": " Added: cross-record state of the parser (C15.R6) and universe-wide transient-string stores (C12.R6); the facility / level stored are FacilityNames[p>>3] / levelMapping[p&7] of the Atoi result of this record's PRI text (R5).",
 	"C10": " Added: the serializer keeps nothing of a record — no transient string is stored into its fields or their elements (C12.R6), no cross-record state other than the reviewed scratch buffer (C15.R6); constructor wiring of encoder and buffer stays intact (C11.R9).",
 	"C11": " Added (R9): constructor-wired field pairs (a helper built on a buffer / channel kept in a sibling field) are enumerated from all constructors; the wired field is stored nowhere else.",
 	"C12": " R1 finds the recycle path as the call chain from Release to the record's Pool.Put (helper names do not matter). Added: universe-wide transient-string store rule over per-record code (R6); no record field aliases a long-lived scratch buffer, and per-record packages do not import unsafe outside util/strings.go (R7).",
